@@ -245,6 +245,25 @@ def run(ctx):
         if not (len(st_) == 1 and isinstance(st_[0], ast.Name) and st_[0].id in (va6, 'args') and len(dk_) == 1 and isinstance(dk_[0], ast.Name) and dk_[0].id in (ka6, 'kwargs')):
             own_args = False
             oke = False
+    # the key is built from the arguments as they were passed: before the intercepted function runs, i.e. in the wrapper's own statements, not
+    # inside a function object that is handed on and evaluated later
+    deferred_k = [k for k in kcalls if any(isinstance(d_, (ast.Lambda, ast.FunctionDef)) and d_ is not cl.node and any(x is k for x in ast.walk(d_)) and
+                                           not any(d_ is b_.node for b_ in beside) for d_ in ast.walk(cl.node))]
+    ce.instance('keys are built in the wrapper itself, before the intercepted function is called (no deferred key construction)', cl.qualname, not deferred_k)
+    for k in deferred_k[:1]:
+        res.add(Finding('C06', 'C06.e', 'R-AGREE', cl.file, cl.qualname, k.lineno, norm(k)[:120],
+                        'the key is built inside a function object that is evaluated later (after the intercepted function ran): a function that changes a '
+                        'captured mutable argument in place is recorded under the changed value, while replay looks it up under the value as passed'))
+    # replay compares the candidate keys with the recorded keys as they are (membership / equality), never after rewriting them
+    rd6 = roles.reader
+    rewrites = [n for n in ast.walk(rd6.node) if isinstance(n, ast.Call) and (
+        (isinstance(n.func, ast.Attribute) and n.func.attr in ('sub', 'subn', 'replace', 'strip', 'lower', 'upper', 'casefold', 'translate', 'split') and
+         not (isinstance(n.func.value, ast.Constant))) or norm(n.func).startswith('re.'))]
+    ce.instance('replay looks keys up verbatim (no normalisation of key text)', rd6.qualname, not rewrites)
+    for n in rewrites[:1]:
+        res.add(Finding('C06', 'C06.e', 'R-AGREE', rd6.file, rd6.qualname, n.lineno, norm(n)[:100],
+                        'the replay reader rewrites key text before comparing (`%s`): calls whose arguments differ only in what the rewriting removes '
+                        'share one lookup key and are answered with each other\'s values' % norm(n)[:70]))
     ce.instance('%d further key construction(s) use the main key\'s configuration and call arguments' % (len(kcalls) - 1), cl.qualname, oke)
     if not own_args:
         res.add(Finding('C06', 'C06.e', 'R-AGREE', cl.file, cl.qualname, kcalls[0].lineno, norm(kcalls[0])[:140],
